@@ -18,7 +18,7 @@ type Env struct {
 	names  map[string]Val
 	state  *State
 	old    *State
-	lookup func(name string) (Val, bool) // locals
+	lookup func(name string, st *State) (Val, bool) // locals (memory-resident ones are read in st)
 	bound  map[string]Val
 	pkg    *types.Package
 	errs   *[]string
@@ -54,7 +54,7 @@ var basicTypes = map[string]types.Type{
 	"int": types.Typ[types.Int], "int8": types.Typ[types.Int8], "int16": types.Typ[types.Int16], "int32": types.Typ[types.Int32], "int64": types.Typ[types.Int64],
 	"uint": types.Typ[types.Uint], "uint8": types.Typ[types.Uint8], "uint16": types.Typ[types.Uint16], "uint32": types.Typ[types.Uint32], "uint64": types.Typ[types.Uint64],
 	"byte": types.Typ[types.Uint8], "bool": types.Typ[types.Bool], "string": types.Typ[types.String], "uintptr": types.Typ[types.Uintptr],
-	"ref": types.Typ[types.UnsafePointer],
+	"ref": types.Typ[types.UnsafePointer], "set": types.Typ[types.UnsafePointer],
 }
 
 func (e *Env) typeByName(n string) types.Type {
@@ -270,7 +270,7 @@ func (e *Env) ident(n string) Val {
 		return v
 	}
 	if e.localsFirst && !e.inOld && e.lookup != nil {
-		if v, ok := e.lookup(n); ok {
+		if v, ok := e.lookup(n, e.state); ok {
 			return v
 		}
 	}
@@ -286,7 +286,7 @@ func (e *Env) ident(n string) Val {
 		return Val{T: tBool, S: "false"}
 	}
 	if e.lookup != nil {
-		if v, ok := e.lookup(n); ok {
+		if v, ok := e.lookup(n, e.state); ok {
 			return v
 		}
 	}
@@ -319,7 +319,7 @@ func ghostType(v string) types.Type {
 	switch v {
 	case "bool":
 		return tBool
-	case "ref":
+	case "ref", "set":
 		return types.Typ[types.UnsafePointer]
 	default:
 		return tInt
@@ -358,7 +358,7 @@ func (e *Env) sel(x *SExpr) Val {
 		_, isName := e.names[n]
 		isLocal := false
 		if e.lookup != nil {
-			_, isLocal = e.lookup(n)
+			_, isLocal = e.lookup(n, e.state)
 		}
 		if !isBound && !isName && !isLocal && e.pkg.Scope().Lookup(n) == nil {
 			for _, imp := range e.pkg.Imports() {
@@ -652,6 +652,27 @@ func (e *Env) call(x *SExpr) Val {
 		n := "E!" + typeKey(et)
 		fc.regArr(n, "(Array Int (Array "+m.idxSort()+" "+m.scalarSort(et)+"))")
 		return Val{T: types.NewArray(et, 0), S: sx("select", e.state.get(n), v.Sub[0].S)}
+	case "allzero":
+		// allzero(x, f1, f2, ...): every field of *x except the listed ones has its zero value.
+		// Generated from the struct's field list, so a field added later is covered automatically.
+		v := e.tr(x.Args[0])
+		var stT types.Type
+		if p, ok := v.T.Underlying().(*types.Pointer); ok {
+			stT = p.Elem()
+		} else if kindOf(v.T) == KStruct {
+			stT = v.T
+		}
+		if stT == nil {
+			return e.errorf("allzero: not a struct")
+		}
+		skip := map[string]bool{}
+		for _, a := range x.Args[1:] {
+			if a.Op != "ident" {
+				return e.errorf("allzero: field names expected")
+			}
+			skip[a.Name] = true
+		}
+		return Val{T: tBool, S: e.allZero(v.S, stT, skip)}
 	case "deref":
 		if x.Args[0].Op == "ident" && e.derefs != nil {
 			if f, ok := e.derefs[x.Args[0].Name]; ok {
@@ -923,7 +944,7 @@ func (fc *FnCtx) globalVal(st *State, o *types.Var) Val {
 	stable := fc.g.globalStable(o)
 	if stable {
 		// constant over the whole execution
-		return fc.buildFromLeaves(t, func(suffix string) string {
+		v := fc.buildFromLeaves(t, func(suffix string) string {
 			n := name + suffix
 			for _, l := range fc.leafSorts(t) {
 				if l[0] == suffix {
@@ -932,6 +953,40 @@ func (fc *FnCtx) globalVal(st *State, o *types.Var) Val {
 			}
 			return sym(n)
 		})
+		if !fc.ground["gv:"+name] {
+			fc.ground["gv:"+name] = true
+			fc.define(fc.typingFacts(fc.entry, v))
+		}
+		return v
 	}
 	return fc.load(st, a, t)
+}
+
+func (e *Env) allZero(ref string, stT types.Type, skip map[string]bool) string {
+	fc := e.fc
+	st := stT.Underlying().(*types.Struct)
+	var cs []string
+	for i := 0; i < st.NumFields(); i++ {
+		f := st.Field(i)
+		if skip[f.Name()] {
+			continue
+		}
+		a := &Addr{Kind: aField, Obj: ref, ST: stT, F: i}
+		switch kindOf(f.Type()) {
+		case KStruct:
+			cs = append(cs, e.allZero(fc.structRef(a, f.Type()), f.Type(), nil))
+		case KArray:
+			// fixed arrays inside structs: not modelled as values
+		case KSlice:
+			v := fc.load(e.state, a, f.Type())
+			cs = append(cs, sEq(v.Sub[0].S, "0"), sEq(v.Sub[2].S, fc.m.intConstI(0, tInt)))
+		case KIface:
+			v := fc.load(e.state, a, f.Type())
+			cs = append(cs, sEq(v.Sub[0].S, "0"))
+		default:
+			v := fc.load(e.state, a, f.Type())
+			cs = append(cs, sEq(v.S, fc.zeroVal(f.Type()).S))
+		}
+	}
+	return sAnd(cs...)
 }
